@@ -84,7 +84,7 @@ def project(market, pool: Pool, broker):
     return {"w": (frac(broker.get_token_balance(pool.t0)), frac(broker.get_token_balance(pool.t1))), "pos": pos, "lent": lent}
 
 
-def run_behaviour(pool: Pool, scn, events, row0, float_ticks=False, est_ranges=None, F=1, acct_f=None):
+def run_behaviour(pool: Pool, scn, events, row0, float_ticks=False, est_ranges=None, F=1, acct_f=None, second_pool=False):
     """Execute through the real Actuator.  Returns list of records, one per event:
     dict(out, exc, ret, proj, nv) for operations; dict(proj, nv) for endbar; plus a possible run-level error."""
     bars = [[]]          # operations issued in on_bar, per bar
@@ -118,6 +118,26 @@ def run_behaviour(pool: Pool, scn, events, row0, float_ticks=False, est_ranges=N
         prices, _q = market.get_price_from_data()
         f = Decimal(acct_f.numerator) / Decimal(acct_f.denominator)
         act.set_price(prices.map(lambda x: Decimal(x) * f), TokenInfo("usd", 6))
+    other = None
+    if second_pool:
+        # a second pool of the same tokens (fee 0.3 %) under the same broker, with its own rows (other ticks, ten times the volume, another
+        # pool liquidity) and a position of its own: nothing of it may reach the first pool's fees
+        p2 = UniV3Pool(pool.t0, pool.t1, 0.3, pool.t0 if pool.zq else pool.t1)
+        rs2 = [dict(pool.rows[i - 1]) for i in rows]
+        for r in rs2:
+            r.update(open=r["open"] + 120, close=r["close"] + 120, liq=r["liq"] * 3 + 11, in0=r["in0"] * 10, in1=r["in1"] * 10)
+        hold, pool.rows = pool.rows, rs2
+        try:
+            df2 = Pool.frame(pool, list(range(1, len(rs2) + 1)), float_ticks, F)
+        finally:
+            pool.rows = hold
+        # (frame() derives its price columns for pool.pool; only the raw columns matter for the second market's fee accrual, its
+        #  price column is recomputed for its own pool below)
+        df2 = df2[["netAmount0", "netAmount1", "closeTick", "openTick", "lowestTick", "highestTick", "inAmount0", "inAmount1", "currentLiquidity"]].copy()
+        _add_statistic_column(df2, p2)
+        other = UniLpMarket(MarketInfo("uni2"), p2)
+        other.data = df2
+        act.broker.add_market(other)
     recs = []
     base_first = not pool.zq     # base = token0 unless token0 is the quote token
 
@@ -192,6 +212,16 @@ def run_behaviour(pool: Pool, scn, events, row0, float_ticks=False, est_ranges=N
         return {"endbar": True, "proj": project(market, pool, act.broker), "view": views(), "last_tick": market.last_tick, "acct": acct(snapshot)}
 
     class S(Strategy):
+        def initialize(self_):
+            if other is not None:
+                # the second pool's position is paid from extra funds, the wallet the behaviour starts from is restored afterwards
+                act.broker.set_balance(pool.t0, dec(pool.w0[0]) + (Decimal(10 ** 6) if pool.d0 == 6 else Decimal(500)))
+                act.broker.set_balance(pool.t1, dec(pool.w0[1]) + (Decimal(10 ** 6) if pool.d1 == 6 else Decimal(500)))
+                c2 = int(other.data.closeTick.iloc[0]) // 60 * 60
+                other.add_liquidity_by_tick(c2 - 600, c2 + 600, Decimal(100), Decimal(200000))
+                act.broker.set_balance(pool.t0, dec(pool.w0[0]))
+                act.broker.set_balance(pool.t1, dec(pool.w0[1]))
+
         def on_bar(self_, snapshot):
             issue(bars[snapshot.row_id], snapshot)
 
